@@ -22,6 +22,11 @@ func (r RemoveIntersections) Process(schemas []*ast.Schema) ([]*ast.Schema, erro
 }
 
 func (r RemoveIntersections) processSchema(v *Visitor, schema *ast.Schema) (*ast.Schema, error) {
+	// objects are recorded under their name only: what was found in a schema
+	// must not be applied to the objects of the next one.
+	clear(r.objectsToRemove)
+	clear(r.arraysToFix)
+
 	var foundErr error
 	schema.Objects.Iterate(func(key string, value ast.Object) {
 		if value.Type.IsRef() {
